@@ -10,7 +10,7 @@ import itertools
 import z3
 
 from pyvc import sym, instrument, vc as vcm
-from pyvc.arr import SymArray
+from pyvc.arr import SymArray, check_same
 from pyvc.harness import Unit
 from pyvc.models import fsmodel
 from pyvc.models.npmodel import NP, BUILTINS
@@ -246,7 +246,7 @@ def run_meshes(mutate=None):
         em.to_hdf5(g)
         back = EM.from_hdf5(g)
         for k, v in fields.items():
-            check(f"C14.edge_mesh.{k}", z3.BoolVal(getattr(back, k) is v))
+            check_same(f"C14.edge_mesh.{k}", [(getattr(back, k), v)])
         # missing data -> IOError, not a silently wrong mesh
         g2 = fsmodel.Group(fs)
         g2["centers"] = fields["centers"]
@@ -278,8 +278,8 @@ def run_meshes(mutate=None):
         finally:
             Mesh.__init__ = real_init
         for k, v in mf.items():
-            check(f"C14.mesh_full.{k}", z3.BoolVal(captured.get(k) is v))
-        check("C14.mesh_full.edge_mesh", z3.BoolVal(all(getattr(captured.get("edge_mesh"), k, None) is v for k, v in fields.items())))
+            check_same(f"C14.mesh_full.{k}", [(captured.get(k), v)])
+        check_same("C14.mesh_full.edge_mesh", [(getattr(captured.get("edge_mesh"), k, None), v) for k, v in fields.items()])
         vp = captured.get("voronoi_polygons")
         check("C14.mesh_full.voronoi_polygons_split_back", z3.BoolVal(vp is not None and len(vp) == len(polys) and all(np.array_equal(a, b) for a, b in zip(vp, polys))))
         # compressed: only sites and elements stored; not restorable -> recomputed from the triangulation (same stored sites/elements)
@@ -293,7 +293,7 @@ def run_meshes(mutate=None):
             r = Mesh.from_hdf5(gc)
         finally:
             Mesh.from_triangulation = real_ft
-        check("C14.mesh_compressed.recomputed_from_stored_triangulation", z3.BoolVal(r == "RECOMPUTED" and seen.get("elements") is mf["elements"]))
+        check_same("C14.mesh_compressed.recomputed_from_stored_triangulation", [(seen.get("elements"), mf["elements"]), (seen.get("sites"), mf["sites"])], also=(r == "RECOMPUTED"))
         # DynamicsData through to_hdf5 / from_hdf5 (the stored-dynamics branch)
         DD = mods["tdgl.solution.data"]["DynamicsData"]
         for has_mu, has_it in itertools.product((False, True), (False, True)):
@@ -314,8 +314,8 @@ def run_meshes(mutate=None):
                 real_dd.from_hdf5(gd)
             finally:
                 mods["tdgl.solution.data"].ns["DynamicsData"] = real_dd
-            check(f"C14.dynamics[mu={has_mu},iterations={has_it}]", z3.BoolVal(got.get("dt") is d.dt and got.get("theta") is d.theta and got.get("mu") is d.mu
-                                                                               and got.get("screening_iterations") is d.screening_iterations))
+            check_same(f"C14.dynamics[mu={has_mu},iterations={has_it}]", [(got.get("dt"), d.dt), (got.get("theta"), d.theta), (got.get("mu"), d.mu),
+                                                                          (got.get("screening_iterations"), d.screening_iterations)])
     obls, n = explore(body, safety=False)
     return dict(obls=obls, paths=n, sources=[v.info() for v in mods.values()], consistent=True)
 
